@@ -223,3 +223,37 @@ func capabilityFacts(lf *leanFile) {
 	}
 	lf.def("referrersStateUses", "List String", leanStrList(rows))
 }
+
+// tarfsFacts: how indexEntries derives the position it records.
+func tarfsFacts(lf *leanFile) {
+	var seek, posExpr string
+	if fd := funcDecl("internal/fs/tarfs/tarfs.go", "TarFS", "indexEntries"); fd != nil {
+		ast.Inspect(fd.Body, func(n ast.Node) bool {
+			switch x := n.(type) {
+			case *ast.AssignStmt:
+				if len(x.Lhs) >= 1 && exprString(x.Lhs[0]) == "pos" && len(x.Rhs) == 1 {
+					seek = exprString(x.Rhs[0])
+				}
+			case *ast.KeyValueExpr:
+				if id, ok := x.Key.(*ast.Ident); ok && id.Name == "pos" {
+					posExpr = exprString(x.Value)
+				}
+			}
+			return true
+		})
+	}
+	if seek == "" || posExpr == "" {
+		miss("internal/fs/tarfs/tarfs.go:indexEntries pos")
+	}
+	lf.def("tarfsIndexPos", "List String", leanStrList([]string{seek, posExpr}))
+	bs := "0"
+	if f := parseFile("internal/fs/tarfs/tarfs.go"); f != nil {
+		ast.Inspect(f, func(n ast.Node) bool {
+			if vs, ok := n.(*ast.ValueSpec); ok && len(vs.Names) == 1 && vs.Names[0].Name == "blockSize" && len(vs.Values) == 1 {
+				bs = exprString(vs.Values[0])
+			}
+			return true
+		})
+	}
+	lf.def("tarfsBlockSize", "Nat", bs)
+}
